@@ -399,6 +399,9 @@ def occurrences_roots_and_independence(ctx):
               '<xsd:element name="g" type="xsd:string" minOccurs="0" maxOccurs="10"/>'
               '<xsd:element name="in" type="x:Inner"/><xsd:element name="ins" type="x:Inner" maxOccurs="3"/>'
               '</xsd:sequence></xsd:complexType><xsd:element name="order" type="x:Occ"/>'
+              '<xsd:complexType name="Doc2"><xsd:sequence><xsd:element name="title" type="xsd:string"/></xsd:sequence>'
+              '<xsd:attribute name="_rev" type="xsd:string" default="1"/><xsd:attribute name="id" type="xsd:string" '
+              'default="7"/></xsd:complexType>'
               '<xsd:complexType name="WithAttr"><xsd:sequence><xsd:element name="a" type="xsd:string"/></xsd:sequence>'
               '<xsd:attribute name="code" type="xsd:string"/></xsd:complexType>'
               '<xsd:complexType name="WithBoth"><xsd:complexContent><xsd:extension base="x:WithAttr"><xsd:sequence>'
@@ -412,7 +415,9 @@ def occurrences_roots_and_independence(ctx):
     want = [("Occ", occ), ("order", occ), ("Occ.in", inner),
             ("order.in", inner), ("order.ins", inner), ("Inner", inner),
             # an inherited attribute and an element of the derived type share a name: the path names the element
-            ("WithBoth.code", inner)]
+            ("WithBoth.code", inner),
+            # an attribute whose own name starts with an underscore is a member like any other attribute
+            ("Doc2", {"__class__": "Doc2", "title": None, "__rev": "1", "_id": "7"})]
     for name, exp in want:
         meta = {"stream": "occurrences-and-roots", "name": name}
         ctx.case(common.canon(meta), True)
